@@ -181,6 +181,7 @@ func cmpWithShadow(op string, a, b *Term) *Term {
 	if _, isC := general.ConstBool(); isC {
 		return general
 	}
+	general = refineWithExact(op, a, b, general)
 	ea, da, ok1 := shadow(a)
 	eb, db, ok2 := shadow(b)
 	if !ok1 || !ok2 {
@@ -207,4 +208,39 @@ func cmpWithShadow(op string, a, b *Term) *Term {
 		sureFalse = Gt(Neg(diff), dt)   // a - b > d  => a > b
 	}
 	return Ite(sureTrue, True, Ite(sureFalse, False, general))
+}
+
+// exactRepr: t denotes a value that is exactly representable as a float64 (an integer of magnitude <= 2^53
+// or a constant that survives the float64 round trip).
+func exactRepr(t *Term) bool {
+	if t.Op == "c" {
+		f, _ := t.Rat.Float64()
+		r := new(big.Rat)
+		return r.SetFloat64(f) != nil && r.Cmp(t.Rat) == 0
+	}
+	if t.IsIntReal && t.Lo != nil && t.Hi != nil && t.Lo.Cmp(new(big.Rat).Neg(two53)) >= 0 && t.Hi.Cmp(two53) <= 0 {
+		return true
+	}
+	return false
+}
+
+// refineWithExact strengthens a comparison between RN(x) and an exactly representable y with what
+// round-to-nearest guarantees (RN is monotone and RN(y) = y):  x <= y => RN(x) <= y  and  x >= y => RN(x) >= y.
+// The result is equivalent to the plain comparison for every IEEE execution.
+func refineWithExact(op string, a, b, general *Term) *Term {
+	if a.Op == "@RN" && exactRepr(b) {
+		x := a.Args[0]
+		if op == "<" { // RN(x) < y  =>  x < y
+			return And(general, Lt(x, b))
+		}
+		return Or(general, Le(x, b)) // x <= y => RN(x) <= y
+	}
+	if b.Op == "@RN" && exactRepr(a) {
+		x := b.Args[0]
+		if op == "<" { // y < RN(x)  =>  y < x
+			return And(general, Lt(a, x))
+		}
+		return Or(general, Le(a, x)) // y <= x => y <= RN(x)
+	}
+	return general
 }
